@@ -868,48 +868,92 @@ Section Serve.
     - split; [assumption|reflexivity].
   Qed.
 
-  (* a request that no middleware resolved before routing *)
-  Lemma serve_spec m me wire ar ap : wf_mux m ->
+  (* reading a context chi has routed on *)
+  Lemma read_routed m me mp r caps : wf_pattern (r_pat r) = true ->
+    wild_get me (chi_render (r_pat r)) (wild m) = catchall_name (r_pat r) ->
+    let c2 := {| rpats := [chi_render (r_pat r)]; ukeys := map fst caps; uvals := map snd caps; mna := false |} in
+    resolve_pattern pick m c2 me mp = goa_render (r_pat r) /\
+    vars pick m c2 me mp =
+      map (rename (opt_name (catchall_name (r_pat r)))) (map (fun kv : bstr * bstr => (fst kv, unescape_or_id (snd kv))) caps).
+  Proof.
+    intros Hw Hg c2. unfold resolve_pattern, vars, ensure_context, resolve_wildcard. subst c2.
+    rewrite !(route_pattern_single _ _ _ _ Hw).
+    change (negb (is_nil (chi_render (r_pat r)))) with true. cbv beta iota.
+    rewrite ?(route_pattern_single _ _ _ _ Hw), !Hg. cbn [ukeys uvals].
+    pose proof (wf_pattern_ca_last _ Hw) as Hc. split.
+    - destruct (catchall_name (r_pat r)) as [n|] eqn:Cn; [now apply resolve_render|now apply render_no_catchall].
+    - destruct (catchall_name (r_pat r)); apply zip_vars_caps.
+  Qed.
+
+  (* what a middleware asking before next is told: the same as after routing, as soon as
+     the string goa matches is the string chi routes *)
+  Lemma pre_answer_found m me rp c2 r : find_route pick m ctx0 me rp = (c2, Some r) ->
+    pre_answer pick m me rp = (resolve_pattern pick m c2 me rp, vars pick m c2 me rp).
+  Proof.
+    intro E. pose proof (find_route_ctx0 m me rp) as Hf. rewrite E in Hf. destruct Hf as (_ & caps & _ & ->).
+    unfold pre_answer, resolve_pattern, vars, ensure_context.
+    change (route_pattern ctx0) with (@nil byte). cbn [is_nil negb]. rewrite E.
+    set (c2 := {| rpats := [chi_render (r_pat r)]; ukeys := map fst caps; uvals := map snd caps; mna := false |}).
+    assert (Hn : is_nil (route_pattern c2) = false \/ is_nil (route_pattern c2) = true) by (destruct (is_nil (route_pattern c2)); auto).
+    destruct Hn as [Hn|Hn]; rewrite Hn; cbn [negb]; reflexivity.
+  Qed.
+
+  Lemma pre_answer_none m me rp c2 : find_route pick m ctx0 me rp = (c2, None) ->
+    pre_answer pick m me rp = ([], []) /\ resolve_pattern pick m c2 me rp = [].
+  Proof.
+    intro E. pose proof (find_route_ctx0 m me rp) as Hf. rewrite E in Hf. destruct Hf as (_ & ->).
+    unfold pre_answer, resolve_pattern, vars, ensure_context.
+    change (route_pattern ctx0) with (@nil byte).
+    change (route_pattern {| rpats := []; ukeys := []; uvals := []; mna := other_method_matches m (path_segs rp) |}) with (@nil byte).
+    cbn [is_nil negb]. rewrite E. split; reflexivity.
+  Qed.
+
+  Lemma match_route_path wire path raw : set_path wire = Some (path, raw) -> wire <> [] ->
+    match_path path raw = route_path path raw.
+  Proof.
+    intros E Hw. destruct (set_path_spec _ _ _ E) as (_ & Hr & _). unfold route_path, match_path.
+    destruct raw as [|c raw']; cbn [is_nil]; [|reflexivity].
+    destruct path as [|c p']; [|reflexivity]. exfalso. apply Hw. now apply Hr.
+  Qed.
+
+  (* one request, whatever the middlewares asked before routing *)
+  Lemma serve_spec m me wire pre ar ap : wf_mux m ->
     match set_path wire with
-    | None => serve pick m me wire [] ar ap = None
+    | None => serve pick m me wire pre ar ap = None
     | Some (path, raw) =>
       let segs := path_segs (route_path path raw) in
-      exists o, serve pick m me wire [] ar ap = Some o /\ o_pre o = [] /\
+      let n := count_true (firstn (length (mws m)) pre) in
+      exists o, serve pick m me wire pre ar ap = Some o /\
         match o_out o with
         | Handled h vs hp =>
           exists r capt, In r (cands m me segs) /\ r_h r = h /\ captured (r_pat r) wire = Some capt /\
             vs = map (rename (opt_name (catchall_name (r_pat r)))) capt /\
-            hp = goa_render (r_pat r) /\ o_post o = goa_render (r_pat r)
-        | NotFound e => cands m me segs = [] /\ other_method_matches m segs = false /\ e = response_encoder ar ap
-        | MethodNotAllowed => cands m me segs = [] /\ other_method_matches m segs = true
+            hp = goa_render (r_pat r) /\ o_post o = goa_render (r_pat r) /\
+            (wire <> [] -> o_pre o = repeat (hp, vs) n)
+        | NotFound e => cands m me segs = [] /\ other_method_matches m segs = false /\ e = response_encoder ar ap /\
+            (wire <> [] -> o_pre o = repeat ([], []) n /\ o_post o = [])
+        | MethodNotAllowed => cands m me segs = [] /\ other_method_matches m segs = true /\
+            (wire <> [] -> o_pre o = repeat ([], []) n /\ o_post o = [])
         end
     end.
   Proof.
     intros [Hr Hk]. unfold serve. destruct (set_path wire) as [[path raw]|] eqn:Esp; [|reflexivity].
-    rewrite firstn_nil. cbn [run_pre].
     pose proof (find_route_ctx0 m me (route_path path raw)) as Hf.
-    destruct (find_route pick m ctx0 me (route_path path raw)) as [c2 [r|]].
+    destruct (find_route pick m ctx0 me (route_path path raw)) as [c2 [r|]] eqn:Ef.
     - destruct Hf as (Hin & caps & Hm & ->). destruct (cands_in _ _ _ _ Hin) as (Hrin & Hme & _).
       destruct (Hr r Hrin) as [Hw Hg]. rewrite Hme in Hg.
-      unfold vars, resolve_pattern, ensure_context.
-      unfold resolve_wildcard.
-      repeat (rewrite ?(route_pattern_single _ _ _ _ Hw);
-              change (negb (is_nil (chi_render (r_pat r)))) with true; progress cbv beta iota).
-      rewrite ?(route_pattern_single _ _ _ _ Hw), !Hg.
-      eexists. split; [reflexivity|]. cbn [o_pre o_out o_post]. split; [reflexivity|].
+      eexists. split; [reflexivity|]. cbn [o_pre o_out o_post].
+      destruct (read_routed m me (match_path path raw) r caps Hw Hg) as [E1 E2].
       exists r, (map (fun kv : bstr * bstr => (fst kv, unescape_or_id (snd kv))) caps).
       split; [assumption|]. split; [reflexivity|]. split; [unfold captured; now rewrite Esp, Hm|].
-      cbn [ukeys uvals]. split; [destruct (catchall_name (r_pat r)); apply zip_vars_caps|].
-      pose proof (wf_pattern_ca_last _ Hw) as Hc.
-      destruct (catchall_name (r_pat r)) as [n|] eqn:Cn.
-      + rewrite (resolve_render _ n Hc Cn). split; reflexivity.
-      + rewrite (render_no_catchall _ Hc Cn). split; reflexivity.
-    - destruct Hf as (Hc & ->). unfold resolve_pattern, ensure_context.
-      set (c2 := {| rpats := []; ukeys := []; uvals := []; mna := other_method_matches m (path_segs (route_path path raw)) |}).
-      change (route_pattern c2) with (@nil byte). cbn [is_nil negb].
-      destruct (find_route pick m c2 me path) as [c' [r'|]];
-        (eexists; split; [reflexivity|]; cbn [o_pre o_out mna c2]; split; [reflexivity|];
-         destruct (other_method_matches m (path_segs (route_path path raw))) eqn:O; repeat split; assumption).
+      split; [exact E2|]. split; [exact E1|]. split; [exact E1|].
+      intro Hne. rewrite (match_route_path _ _ _ Esp Hne), (pre_answer_found _ _ _ _ _ Ef). reflexivity.
+    - destruct Hf as (Hc & ->). eexists. split; [reflexivity|]. cbn [o_pre o_out o_post mna].
+      destruct (other_method_matches m (path_segs (route_path path raw))) eqn:O.
+      + split; [assumption|]. split; [reflexivity|]. intro Hne. rewrite (match_route_path _ _ _ Esp Hne).
+        destruct (pre_answer_none _ _ _ _ Ef) as [-> ->]. split; reflexivity.
+      + split; [assumption|]. split; [reflexivity|]. split; [reflexivity|]. intro Hne. rewrite (match_route_path _ _ _ Esp Hne).
+        destruct (pre_answer_none _ _ _ _ Ef) as [-> ->]. split; reflexivity.
   Qed.
 End Serve.
 
@@ -1004,81 +1048,85 @@ Section Built.
   Variable pick : list bstr -> list route -> option route.
   Hypothesis pick_sound : forall segs cs, match pick segs cs with Some r => In r cs | None => cs = [] end.
 
-  Lemma built_request_served m r ip ar ap :
+  Lemma build_url_nonempty ip : build_url ip <> [].
+  Proof. discriminate. Qed.
+
+  Lemma built_request_served m r ip pre ar ap :
     wf_mux m -> In r (routes m) -> r_pat r = pat_of ip -> wf_ipat ip = true ->
     exists o r' vs,
-      serve pick m (r_meth r) (build_url ip) [] ar ap = Some o /\
+      serve pick m (r_meth r) (build_url ip) pre ar ap = Some o /\
       In r' (routes m) /\ r_meth r' = r_meth r /\
       captured (r_pat r') (build_url ip) <> None /\
       o_out o = Handled (r_h r') vs (goa_render (r_pat r')) /\ o_post o = goa_render (r_pat r') /\
+      o_pre o = repeat (goa_render (r_pat r'), vs) (count_true (firstn (length (mws m)) pre)) /\
       (r' = r -> vs = returned ip).
   Proof.
     intros Hm Hin Hp Hw. pose proof (captured_build_url ip Hw) as Hcap.
     destruct (captured_matches _ _ _ Hcap) as (path & raw & Esp & Hmatch).
-    pose proof (serve_spec pick pick_sound m (r_meth r) (build_url ip) ar ap Hm) as Hs. rewrite Esp in Hs.
-    destruct Hs as (o & Eo & _ & Hout).
+    pose proof (serve_spec pick pick_sound m (r_meth r) (build_url ip) pre ar ap Hm) as Hs. rewrite Esp in Hs.
+    destruct Hs as (o & Eo & Hout).
     assert (Hc : In r (cands m (r_meth r) (path_segs (route_path path raw)))).
     { unfold cands. apply filter_In. split; [assumption|]. now rewrite method_eqb_refl, Hp, Hmatch. }
     destruct (o_out o) as [h vs hp| |] eqn:Eout.
-    - destruct Hout as (r' & capt & Hin' & <- & Hc' & -> & -> & Hpost).
+    - destruct Hout as (r' & capt & Hin' & <- & Hc' & -> & -> & Hpost & Hpre).
       destruct (cands_in _ _ _ _ Hin') as (Hr' & Hme' & _).
       exists o, r', (map (rename (opt_name (catchall_name (r_pat r')))) capt).
-      repeat split; try assumption; try reflexivity.
-      + rewrite Hc'. discriminate.
-      + intros ->. rewrite Hp in *. rewrite Hcap in Hc'. injection Hc' as <-.
-        unfold wf_ipat in Hw. apply andb_true_iff in Hw as [Hw _]. unfold returned.
-        destruct (forallb neutral (ivals ip));
-          apply rename_icaps; (apply wf_pattern_seg_wf || apply wf_pattern_ca_last); assumption.
+      split; [assumption|]. split; [assumption|]. split; [assumption|]. split; [rewrite Hc'; discriminate|].
+      split; [exact Eout|]. split; [assumption|]. split; [exact (Hpre (build_url_nonempty ip))|].
+      intros ->. rewrite Hp in *. rewrite Hcap in Hc'. injection Hc' as <-.
+      unfold wf_ipat in Hw. apply andb_true_iff in Hw as [Hw _]. unfold returned.
+      destruct (forallb neutral (ivals ip));
+        apply rename_icaps; (apply wf_pattern_seg_wf || apply wf_pattern_ca_last); assumption.
     - destruct Hout as [Hout _]. rewrite Hout in Hc. contradiction.
     - destruct Hout as [Hout _]. rewrite Hout in Hc. contradiction.
   Qed.
 
   (* dispatch: the handler reached belongs to the matching set; 404/405 iff it is empty *)
-  Lemma dispatch_sound m me wire ar ap o h vs hp : wf_mux m ->
-    serve pick m me wire [] ar ap = Some o -> o_out o = Handled h vs hp ->
+  Lemma dispatch_sound m me wire pre ar ap o h vs hp : wf_mux m ->
+    serve pick m me wire pre ar ap = Some o -> o_out o = Handled h vs hp ->
     exists path raw r, set_path wire = Some (path, raw) /\
       In r (cands m me (path_segs (route_path path raw))) /\ r_h r = h.
   Proof.
-    intros Hm Es Eo. pose proof (serve_spec pick pick_sound m me wire ar ap Hm) as Hs.
+    intros Hm Es Eo. pose proof (serve_spec pick pick_sound m me wire pre ar ap Hm) as Hs.
     destruct (set_path wire) as [[path raw]|]; [|congruence].
-    destruct Hs as (o' & Eo' & _ & Hout). rewrite Es in Eo'. injection Eo' as <-. rewrite Eo in Hout.
+    destruct Hs as (o' & Eo' & Hout). rewrite Es in Eo'. injection Eo' as <-. rewrite Eo in Hout.
     destruct Hout as (r & _ & Hin & Hh & _). now exists path, raw, r.
   Qed.
 
-  Lemma dispatch_unhandled_iff m me wire ar ap o path raw : wf_mux m ->
-    serve pick m me wire [] ar ap = Some o -> set_path wire = Some (path, raw) ->
+  Lemma dispatch_unhandled_iff m me wire pre ar ap o path raw : wf_mux m ->
+    serve pick m me wire pre ar ap = Some o -> set_path wire = Some (path, raw) ->
     let segs := path_segs (route_path path raw) in
     ((exists h vs hp, o_out o = Handled h vs hp) <-> cands m me segs <> []) /\
     (o_out o = NotFound (response_encoder ar ap) <-> cands m me segs = [] /\ other_method_matches m segs = false) /\
     (o_out o = MethodNotAllowed <-> cands m me segs = [] /\ other_method_matches m segs = true).
   Proof.
-    intros Hm Es Esp. pose proof (serve_spec pick pick_sound m me wire ar ap Hm) as Hs. rewrite Esp in Hs.
-    destruct Hs as (o' & Eo' & _ & Hout). rewrite Es in Eo'. injection Eo' as <-. cbv zeta.
+    intros Hm Es Esp. pose proof (serve_spec pick pick_sound m me wire pre ar ap Hm) as Hs. rewrite Esp in Hs.
+    destruct Hs as (o' & Eo' & Hout). rewrite Es in Eo'. injection Eo' as <-. cbv zeta.
     destruct (o_out o) as [h vs hp|e|].
     - destruct Hout as (r & _ & Hin & _). repeat split; try discriminate.
       + intros _ E. rewrite E in Hin. contradiction.
       + now exists h, vs, hp.
       + intros [E _]. rewrite E in Hin. contradiction.
       + intros [E _]. rewrite E in Hin. contradiction.
-    - destruct Hout as (Hc & Ho & ->). repeat split; try assumption; try discriminate.
+    - destruct Hout as (Hc & Ho & -> & _). repeat split; try assumption; try discriminate.
       + intros (h & vs & hp & E). discriminate.
       + intro H. contradiction.
       + intros [_ E]. congruence.
-    - destruct Hout as (Hc & Ho). repeat split; try assumption; try discriminate.
+    - destruct Hout as (Hc & Ho & _). repeat split; try assumption; try discriminate.
       + intros (h & vs & hp & E). discriminate.
       + intro H. contradiction.
       + intros [_ E]. congruence.
   Qed.
 
-  Lemma dispatch_unique m me wire ar ap o path raw r : wf_mux m ->
-    serve pick m me wire [] ar ap = Some o -> set_path wire = Some (path, raw) ->
+  Lemma dispatch_unique m me wire pre ar ap o path raw r : wf_mux m ->
+    serve pick m me wire pre ar ap = Some o -> set_path wire = Some (path, raw) ->
     cands m me (path_segs (route_path path raw)) = [r] ->
     exists vs, o_out o = Handled (r_h r) vs (goa_render (r_pat r)) /\ o_post o = goa_render (r_pat r).
   Proof.
-    intros Hm Es Esp Hc. pose proof (serve_spec pick pick_sound m me wire ar ap Hm) as Hs. rewrite Esp in Hs.
-    destruct Hs as (o' & Eo' & _ & Hout). rewrite Es in Eo'. injection Eo' as <-.
+    intros Hm Es Esp Hc. pose proof (serve_spec pick pick_sound m me wire pre ar ap Hm) as Hs. rewrite Esp in Hs.
+    destruct Hs as (o' & Eo' & Hout). rewrite Es in Eo'. injection Eo' as <-.
     destruct (o_out o) as [h vs hp|e|].
-    - destruct Hout as (r' & capt & Hin & <- & _ & _ & -> & Hpost). rewrite Hc in Hin. destruct Hin as [<-|[]].
+    - destruct Hout as (r' & capt & Hin & <- & _ & _ & -> & Hpost & _). rewrite Hc in Hin. destruct Hin as [<-|[]].
       now exists vs.
     - destruct Hout as [E _]. rewrite E in Hc. discriminate.
     - destruct Hout as [E _]. rewrite E in Hc. discriminate.
@@ -1161,21 +1209,12 @@ Section Single.
   Lemma vars_single c me p : vars pick m c me p = vars first_pick m c me p.
   Proof. unfold vars. now rewrite ensure_context_single. Qed.
 
-  Lemma run_pre_single me p pre : forall c, run_pre pick m c me p pre = run_pre first_pick m c me p pre.
-  Proof.
-    induction pre as [|b pre IH]; intro c; [reflexivity|]. destruct b; cbn [run_pre]; [|apply IH].
-    rewrite resolve_pattern_single. destruct (resolve_pattern first_pick m c me p) as [c1 pp]. now rewrite IH.
-  Qed.
-
   Lemma serve_single me wire pre ar ap : serve pick m me wire pre ar ap = serve first_pick m me wire pre ar ap.
   Proof.
-    unfold serve. destruct (set_path wire) as [[path raw]|]; [|reflexivity].
-    rewrite run_pre_single. destruct (run_pre first_pick m ctx0 me path (firstn (length (mws m)) pre)) as [c1 pres].
-    rewrite find_route_single. destruct (find_route first_pick m c1 me (route_path path raw)) as [c2 [r|]].
-    - rewrite vars_single. destruct (vars first_pick m c2 me path) as [c3 vs].
-      rewrite resolve_pattern_single. destruct (resolve_pattern first_pick m c3 me path) as [c4 hp].
-      now rewrite resolve_pattern_single.
-    - now rewrite resolve_pattern_single.
+    unfold serve, pre_answer. destruct (set_path wire) as [[path raw]|]; [|reflexivity].
+    rewrite find_route_single, resolve_pattern_single, vars_single.
+    destruct (find_route first_pick m ctx0 me (route_path path raw)) as [c2 [r|]];
+      now rewrite ?resolve_pattern_single, ?vars_single.
   Qed.
 End Single.
 
@@ -1259,7 +1298,6 @@ Definition w_mux2 : mux :=
   match use 0 new_muxer with Some m => handle GET [Lit b_f; CatchAll b_p] 0 m | None => new_muxer end.
 Definition w_wire2 : bstr := [x2f; x66; x2f; x61; x2f; x62].                (* "/f/a/b" *)
 Definition w_pat2_goa : bstr := [x2f; x66; x2f; x7b; x2a; x70; x7d].         (* "/f/{*p}" *)
-Definition w_pat2_seen : bstr := [x2f; x66; x2f; x66; x2f; x2a].             (* "/f/f/*" *)
 
 Lemma w_mux2_reachable : reachable w_mux2.
 Proof.
@@ -1267,19 +1305,11 @@ Proof.
   apply reach_handle; [|reflexivity]. eapply reach_use; [apply reach_new|exact E].
 Qed.
 
+(* regression (fixed by bd5b058): the early call, the handler and the late call agree *)
 Lemma resolve_before_routing_served pick : sound pick -> forall ar ap,
   exists o, serve pick w_mux2 GET w_wire2 [true] ar ap = Some o /\
-    o_pre o = [w_pat2_goa] /\ o_out o = Handled 0 [([], v_a_b); ([], v_a_b)] w_pat2_seen /\ o_post o = w_pat2_seen /\
-    goa_render [Lit b_f; CatchAll b_p] = w_pat2_goa /\ routes w_mux2 = [{| r_meth := GET; r_pat := [Lit b_f; CatchAll b_p]; r_h := 0 |}].
-Proof.
-  intros Hs ar ap. rewrite (serve_single pick Hs w_mux2 _ eq_refl). eexists. split; [vm_compute; reflexivity|].
-  vm_compute. repeat split.
-Qed.
-
-(* without the early call the same request is reported correctly *)
-Lemma resolve_after_routing_served pick : sound pick -> forall ar ap,
-  exists o, serve pick w_mux2 GET w_wire2 [false] ar ap = Some o /\
-    o_pre o = [] /\ o_out o = Handled 0 [(b_p, v_a_b)] w_pat2_goa /\ o_post o = w_pat2_goa.
+    o_pre o = [(w_pat2_goa, [(b_p, v_a_b)])] /\ o_out o = Handled 0 [(b_p, v_a_b)] w_pat2_goa /\ o_post o = w_pat2_goa /\
+    goa_render [Lit b_f; CatchAll b_p] = w_pat2_goa.
 Proof.
   intros Hs ar ap. rewrite (serve_single pick Hs w_mux2 _ eq_refl). eexists. split; [vm_compute; reflexivity|].
   vm_compute. repeat split.
@@ -1303,12 +1333,30 @@ Qed.
 
 Lemma resolve_decoded_path_served : forall ar ap,
   exists o, serve first_pick w_mux3 GET w_wire3 [true] ar ap = Some o /\
-    o_pre o = [goa_render [Lit b_u; Var b_a; Var b_b]] /\
-    exists vs hp, o_out o = Handled 0 vs hp /\ vs = [(b_a, b_a); (b_b, b_b); (b_id, v_a_b)] /\
-                  hp <> goa_render [Lit b_u; Var b_id].
+    o_pre o = [(goa_render [Lit b_u; Var b_id], [(b_id, v_a_b)])] /\
+    o_out o = Handled 0 [(b_id, v_a_b)] (goa_render [Lit b_u; Var b_id]) /\
+    o_post o = goa_render [Lit b_u; Var b_id].
 Proof.
-  intros ar ap. eexists. split; [vm_compute; reflexivity|]. split; [vm_compute; reflexivity|].
-  eexists. eexists. split; [vm_compute; reflexivity|]. split; [reflexivity|]. vm_compute. discriminate.
+  intros ar ap. eexists. split; [vm_compute; reflexivity|]. vm_compute. repeat split.
+Qed.
+
+(* what is left: Use(mw); Handle(GET,"/"); a request whose URL has an empty path
+   ("http://host"): chi routes "/" , the early call matches "" and finds nothing *)
+Definition w_mux4 : mux :=
+  match use 0 new_muxer with Some m => handle GET [Lit []] 0 m | None => new_muxer end.
+
+Lemma w_mux4_reachable : reachable w_mux4.
+Proof.
+  unfold w_mux4. destruct (use 0 new_muxer) as [m|] eqn:E; [|discriminate].
+  apply reach_handle; [|reflexivity]. eapply reach_use; [apply reach_new|exact E].
+Qed.
+
+Lemma empty_path_served pick : sound pick -> forall ar ap,
+  exists o, serve pick w_mux4 GET [] [true] ar ap = Some o /\
+    o_pre o = [([], [])] /\ o_out o = Handled 0 [] [slash] /\ o_post o = [slash] /\ goa_render [Lit []] = [slash].
+Proof.
+  intros Hs ar ap. rewrite (serve_single pick Hs w_mux4 _ eq_refl). eexists. split; [vm_compute; reflexivity|].
+  vm_compute. repeat split.
 Qed.
 
 (* non-vacuity material: three routes, a built request with an encoded slash and an empty catch-all *)
@@ -1322,4 +1370,20 @@ Lemma ex_facts :
 Proof.
   split; [reflexivity|]. split; [repeat (apply reach_handle; [|reflexivity]); apply reach_new|].
   split; [reflexivity|]. eexists. split; vm_compute; reflexivity.
+Qed.
+
+(* every middleware that asked before next was told what the handler is told *)
+Lemma pre_agrees pick m me wire pre ar ap o h vs hp : sound pick -> wf_mux m ->
+  serve pick m me wire pre ar ap = Some o -> o_out o = Handled h vs hp -> wire <> [] ->
+  (forall a, In a (o_pre o) -> a = (hp, vs)) /\ o_post o = hp /\
+  length (o_pre o) = count_true (firstn (length (mws m)) pre).
+Proof.
+  intros Hs Hm Es Eo Hne. pose proof (serve_spec pick Hs m me wire pre ar ap Hm) as H.
+  destruct (set_path wire) as [[path raw]|]; [|congruence].
+  destruct H as (o' & Eo' & Hout). rewrite Es in Eo'. injection Eo' as <-. rewrite Eo in Hout.
+  destruct Hout as (r & capt & _ & _ & _ & _ & Ehp & Epost & Hpre). specialize (Hpre Hne).
+  split; [|split].
+  - intros a Ha. rewrite Hpre in Ha. now apply repeat_spec in Ha.
+  - congruence.
+  - rewrite Hpre. apply repeat_length.
 Qed.
